@@ -131,7 +131,7 @@ def judge(o: Outcome, admissible, n=None):
         except (ValueError, TypeError):
             ok = False
         if not ok:
-            return f"index {i}: got {fl[i]!r}, admissible {sorted(adm)}"
+            return f"index {i}: got {fl[i]!r}, admissible {sorted(adm)} [want{''.join(map(str, sorted(adm)))}got{fl[i]}]"
     return None
 
 
@@ -164,6 +164,8 @@ def expect(ctx, cls_prefix, name, kwargs, model_thunk, logical=None, sample_key=
         detail = ""
         if w[0] == "raised":
             detail = f":{o.exc_type}@{o.where}"
+        elif "[want" in w[1]:
+            detail = ":" + w[1].rsplit("[", 1)[1].rstrip("]")
         ctx.violation(f"{cls_prefix}:{w[0]}:{name}{detail}", {
             "kind": "call", "func": name, "case": logical if logical is not None else core.jsonable(kwargs),
             "kwargs": core.jsonable(kwargs),
